@@ -2018,6 +2018,13 @@ h2_parse_frames (connection * const con)
              * frames, and try to resend if socket buffers are full, this is
              * probably not a big concern in practice. */
             con->read_idle_ts = log_monotonic_secs;
+            if ((s[4] & H2_FLAG_PADDED) && clen < 10 && flen) {
+                /* Pad Length octet (s[9]) is read by h2_recv_data() and
+                 * must be in same chunk as frame header */
+                clen = h2_frame_cq_compact(cq, 10); UNUSED(clen);
+                c = cq->first; /*(reload after h2_frame_cq_compact())*/
+                s = (uint8_t *)(c->mem->ptr + c->offset);
+            }
             /*(h2_recv_data() must consume frame from cq or else return 0)*/
             if (!h2_recv_data(con, s, flen))
                 return 0;
